@@ -42,6 +42,9 @@ def impl(c):
     d = mk(D2); out["plain"] = bool(EWD(d.graph, d)[0]); d = mk(D2); out["opt"] = bool(EWD(d.graph, d, optimized=True)[0]); out["isw"] = bool(is_winnable(mk(D2)))
     out["qred"] = back(common.div_to_list(G2, q_reduction(mk(D2))))
     out["lineq"] = bool(linear_equivalence(mk(D2), mk(E2)))
+    if n <= 5 and max(abs(x) for x in D2) <= 6:       # the greedy solver's verdict is a winnability answer too
+        from chipfiring.CFGreedyAlgorithm import GreedyAlgorithm
+        dg = mk(D2); out["greedy"] = bool(GreedyAlgorithm(dg.graph, dg).play()[0])
     if c["rank"]: out["rank"] = R.rank(mk(D2)).rank
     if c["gon"]:
         out["gon"] = gonality(common.build_impl_graph(G2, rng), find_strategies=False).gonality
@@ -56,8 +59,8 @@ def judge(c, r, mo):
     if "exc" in r: return [{"what": "presentation %d raised %s: %s" % (c["variant"], r["exc"], r.get("msg"))}]
     if any(x[0] == "FUEL" for x in mo): return []
     o = r["ok"]; n = c["G"]["n"]; out = []; w = mo[0][0] == "1"; tag = "presentation %d%s" % (c["variant"], " (renamed)" if "perm" in c else "")
-    for k in ("plain", "opt", "isw"):
-        if o[k] != w: out.append({"what": "%s: verdict %s=%s, the answer for this multigraph and divisor is %s" % (tag, k, o[k], w)})
+    for k in ("plain", "opt", "isw", "greedy"):
+        if k in o and o[k] != w: out.append({"what": "%s: verdict %s=%s, the answer for this multigraph and divisor is %s" % (tag, k, o[k], w)})
     if o["lineq"] != (mo[1][0] == "1"): out.append({"what": "%s: linear_equivalence=%s, answer %s" % (tag, o["lineq"], mo[1][0])})
     if c["rank"] and o["rank"] != int(mo[2][0]): out.append({"what": "%s: rank=%s, answer %s" % (tag, o["rank"], mo[2][0])})
     for k in ("gon", "gon_s"):
